@@ -203,7 +203,7 @@ fn chunks_case(t: &mut Tape, obs: &mut Obs) -> CaseResult {
             // an arrival scheduled for a call that was not made any more happens now
             if let Some((k, n)) = arrival {
                 if k >= call {
-                    let (_, bytes) = phy.arrival.take().expect("arrival still scheduled");
+                    let Some((_, bytes)) = phy.arrival.take() else { fail!("calls", "receive_all_telegrams made a receive_data call before its first decode attempt or more calls than the reference reassembler ({call})") };
                     phy.buf.extend_from_slice(&bytes);
                     model.buf.back_mut().unwrap().arrived += n;
                 }
